@@ -15,4 +15,5 @@ let table : (Stdlib.String.t * (z list -> z list)) list = [
   "c05e", c05e_entry;
   "c05vs", c05vs_entry;
   "c05es", c05es_entry;
+  "c05t", c05t_entry;
 ]
